@@ -29,8 +29,9 @@ meta0 = json.load(open(os.path.join(src, "meta.json")))
 # demonstrations that need a particular build configuration say so in meta.json ("demo_flags", "demo_env")
 dflags = os.environ.get("DEMO_FLAGS", meta0.get("demo_flags", ""))
 denv = dict(env, CARGO_TARGET_DIR=wt + "/target/demo")
-if os.environ.get("DEMO_RUSTFLAGS"):
-    denv["RUSTFLAGS"] = os.environ["DEMO_RUSTFLAGS"]
+drf = os.environ.get("DEMO_RUSTFLAGS", meta0.get("demo_rustflags", ""))
+if drf:
+    denv["RUSTFLAGS"] = drf
 rc1, _ = sh("cargo run --offline %s >/dev/null 2>&1" % dflags, cwd=demo, e=denv)
 res["demo_with_change_exit"] = rc1
 res["checks"] = {}
